@@ -16,7 +16,10 @@ pub struct Map<K, V, const SORTED: bool> {
 struct Inner<K, V> {
     havoc: bool,
     n: usize,
-    /// touched / stored keys (first `n` are in use)
+    /// identities (VKey) of the touched / stored keys (first `n` are in use)
+    ids: [u64; CAP],
+    /// the owned key, when the slot was created through `insert`/`entry` (always, for concrete maps);
+    /// a slot created by a lookup miss on a havoc map carries only the identity
     keys: [Option<K>; CAP],
     /// value per key; `None` = key known to be absent
     vals: [Option<V>; CAP],
@@ -45,7 +48,7 @@ impl<K, V, const S: bool> Default for Map<K, V, S> {
 impl<K: Clone, V: Clone, const S: bool> Clone for Map<K, V, S> {
     fn clone(&self) -> Self {
         let i = unsafe { &*self.inner.get() };
-        Map { inner: Box::new(UnsafeCell::new(Inner { havoc: i.havoc, n: i.n, keys: i.keys.clone(), vals: i.vals.clone() })) }
+        Map { inner: Box::new(UnsafeCell::new(Inner { havoc: i.havoc, n: i.n, ids: i.ids, keys: i.keys.clone(), vals: i.vals.clone() })) }
     }
 }
 
@@ -57,12 +60,12 @@ impl<K, V, const S: bool> core::fmt::Debug for Map<K, V, S> {
 
 impl<K, V, const S: bool> Map<K, V, S> {
     pub fn new() -> Self {
-        Map { inner: Box::new(UnsafeCell::new(Inner { havoc: false, n: 0, keys: empty(), vals: empty() })) }
+        Map { inner: Box::new(UnsafeCell::new(Inner { havoc: false, n: 0, ids: [0; CAP], keys: empty(), vals: empty() })) }
     }
 
     /// A map standing for an arbitrary map of arbitrary size (havoc mode).
     pub fn arbitrary_unbounded() -> Self {
-        Map { inner: Box::new(UnsafeCell::new(Inner { havoc: true, n: 0, keys: empty(), vals: empty() })) }
+        Map { inner: Box::new(UnsafeCell::new(Inner { havoc: true, n: 0, ids: [0; CAP], keys: empty(), vals: empty() })) }
     }
 
     #[allow(clippy::mut_from_ref)]
@@ -81,39 +84,31 @@ impl<K, V, const S: bool> Map<K, V, S> {
 }
 
 impl<K: VKey + Clone, V: Havoc, const S: bool> Map<K, V, S> {
-    /// Pointer to the value cell of a key already in the table. Every array access uses a loop
-    /// counter, i.e. a CONCRETE index after unwinding: CBMC never sees a symbolic array offset.
-    fn find<Q>(&self, k: &Q) -> Option<*mut Option<V>>
-    where
-        K: core::borrow::Borrow<Q>,
-        Q: VKey + ?Sized,
-    {
+    /// Pointer to the value cell of a key identity already in the table. Every array access uses a
+    /// loop counter, i.e. a CONCRETE index after unwinding: CBMC never sees a symbolic array offset.
+    fn find(&self, id: u64) -> Option<(usize, *mut Option<V>)> {
         let i = self.i();
-        let want = k.vkey();
         let mut p = 0;
         while p < CAP {
-            if p < i.n {
-                if let Some(kk) = &i.keys[p] {
-                    if kk.borrow().vkey() == want {
-                        return Some(&mut i.vals[p] as *mut Option<V>);
-                    }
-                }
+            if p < i.n && i.ids[p] == id {
+                return Some((p, &mut i.vals[p] as *mut Option<V>));
             }
             p += 1;
         }
         None
     }
 
-    /// Allocates the cell for a key not yet in the table; in havoc mode its presence and
-    /// value are chosen nondeterministically (first touch).
-    fn alloc(&self, k: K) -> *mut Option<V> {
+    /// Allocates the cell for a key identity not yet in the table; in havoc mode its presence
+    /// and value are chosen nondeterministically (first touch).
+    fn alloc(&self, id: u64, k: Option<K>) -> *mut Option<V> {
         let i = self.i();
         assert!(i.n < CAP, "vcoll: footprint capacity exceeded");
         let v = if i.havoc && any_bool() { Some(V::havoc()) } else { None };
         let mut p = 0;
         while p < CAP {
             if p == i.n {
-                i.keys[p] = Some(k);
+                i.ids[p] = id;
+                i.keys[p] = k;
                 i.vals[p] = v;
                 i.n += 1;
                 return &mut i.vals[p] as *mut Option<V>;
@@ -123,10 +118,22 @@ impl<K: VKey + Clone, V: Havoc, const S: bool> Map<K, V, S> {
         unreachable!()
     }
 
+    /// cell for an owned key (insert / entry): remembers the key itself for iteration
     fn cell(&self, k: &K) -> *mut Option<V> {
-        match self.find(k) {
-            Some(c) => c,
-            None => self.alloc(k.clone()),
+        let id = k.vkey();
+        match self.find(id) {
+            Some((p, c)) => {
+                let i = self.i();
+                let mut q = 0;
+                while q < CAP {
+                    if q == p && i.keys[q].is_none() {
+                        i.keys[q] = Some(k.clone());
+                    }
+                    q += 1;
+                }
+                c
+            },
+            None => self.alloc(id, Some(k.clone())),
         }
     }
 
@@ -134,13 +141,14 @@ impl<K: VKey + Clone, V: Havoc, const S: bool> Map<K, V, S> {
     fn peek<Q>(&self, k: &Q) -> Option<*mut Option<V>>
     where
         K: core::borrow::Borrow<Q>,
-        Q: VKey + ToOwned<Owned = K> + ?Sized,
+        Q: VKey + ?Sized,
     {
-        match self.find(k) {
-            Some(c) => Some(c),
+        let id = k.vkey();
+        match self.find(id) {
+            Some((_, c)) => Some(c),
             None => {
                 if self.i().havoc {
-                    Some(self.alloc(k.to_owned()))
+                    Some(self.alloc(id, None))
                 } else {
                     None
                 }
@@ -151,7 +159,7 @@ impl<K: VKey + Clone, V: Havoc, const S: bool> Map<K, V, S> {
     pub fn get<Q>(&self, k: &Q) -> Option<&V>
     where
         K: core::borrow::Borrow<Q>,
-        Q: VKey + ToOwned<Owned = K> + ?Sized,
+        Q: VKey + ?Sized,
     {
         match self.peek(k) {
             Some(c) => unsafe { (*c).as_ref() },
@@ -162,7 +170,7 @@ impl<K: VKey + Clone, V: Havoc, const S: bool> Map<K, V, S> {
     pub fn get_mut<Q>(&mut self, k: &Q) -> Option<&mut V>
     where
         K: core::borrow::Borrow<Q>,
-        Q: VKey + ToOwned<Owned = K> + ?Sized,
+        Q: VKey + ?Sized,
     {
         match self.peek(k) {
             Some(c) => unsafe { (*c).as_mut() },
@@ -173,7 +181,7 @@ impl<K: VKey + Clone, V: Havoc, const S: bool> Map<K, V, S> {
     pub fn contains_key<Q>(&self, k: &Q) -> bool
     where
         K: core::borrow::Borrow<Q>,
-        Q: VKey + ToOwned<Owned = K> + ?Sized,
+        Q: VKey + ?Sized,
     {
         self.get(k).is_some()
     }
@@ -185,7 +193,7 @@ impl<K: VKey + Clone, V: Havoc, const S: bool> Map<K, V, S> {
     pub fn remove<Q>(&mut self, k: &Q) -> Option<V>
     where
         K: core::borrow::Borrow<Q>,
-        Q: VKey + ToOwned<Owned = K> + ?Sized,
+        Q: VKey + ?Sized,
     {
         match self.peek(k) {
             Some(c) => unsafe { (*c).take() },
@@ -416,6 +424,7 @@ impl<K, V, const S: bool> Map<K, V, S> {
         let i = self.i();
         i.havoc = false;
         i.n = 0;
+        i.ids = [0; CAP];
         i.keys = empty();
         i.vals = empty();
     }
@@ -511,14 +520,14 @@ impl<K: VKey + Clone, const S: bool> Set<K, S> {
     pub fn remove<Q>(&mut self, k: &Q) -> bool
     where
         K: core::borrow::Borrow<Q>,
-        Q: VKey + ToOwned<Owned = K> + ?Sized,
+        Q: VKey + ?Sized,
     {
         self.m.remove(k).is_some()
     }
     pub fn contains<Q>(&self, k: &Q) -> bool
     where
         K: core::borrow::Borrow<Q>,
-        Q: VKey + ToOwned<Owned = K> + ?Sized,
+        Q: VKey + ?Sized,
     {
         self.m.contains_key(k)
     }
